@@ -419,6 +419,19 @@ func (v *view) max(filter *Row, bitDepth uint) (max int64, count uint64, err err
 	return max, count, nil
 }
 
+// notNull returns the columns that hold a value.
+func (v *view) notNull() (*Row, error) {
+	r := NewRow()
+	for _, frag := range v.allFragments() {
+		other, err := frag.notNull()
+		if err != nil {
+			return nil, err
+		}
+		r = r.Union(other)
+	}
+	return r, nil
+}
+
 // rangeOp returns rows with a field value encoding matching the predicate.
 func (v *view) rangeOp(op pql.Token, bitDepth uint, predicate int64) (*Row, error) {
 	r := NewRow()
